@@ -106,6 +106,16 @@ if TRACE:
         CALLS.append("call:%d:%d:%d" % (l.index(self), l.index(src_trx), src_msg.fn))
         return _orig_hdm(self, src_trx, src_msg, msg)
     FakeTRX.handle_data_msg = _traced_hdm
+    # every attempt to send a TRX->L1 message: send:<dst>:<fn>:<rssi>:<toa256>:<nope>
+    import data_if as _data_if
+    _orig_send = _data_if.DATAInterface.send_msg
+    def _traced_send(self, msg, legacy=False):
+        l = CUR_APP[0].trx_list.trx_list
+        k = [i for i, t in enumerate(l) if t.data_if is self]
+        CALLS.append("send:%d:%s:%s:%s:%d" % (k[0] if k else -1, msg.fn, getattr(msg, "rssi", None),
+                     getattr(msg, "toa256", None), int(bool(getattr(msg, "nope_ind", False)))))
+        return _orig_send(self, msg, legacy)
+    _data_if.DATAInterface.send_msg = _traced_send
 
 # ---------------------------------------------------------------- world
 def build(extra):
